@@ -67,7 +67,8 @@ def gen_scenario(rng, nops):
         elif r < 0.64: ops.append('(editk %d %d %s)' % (rng.choice([2, 5, 12, 4, 1, 3]), rng.randrange(0, 6), E.H(rng.choice(IDPOOL + ['b4da59', 'zz']))))
         elif r < 0.70: ops.append('(clearall)')
         elif r < 0.80: ops.append('(item %s)' % E.H(rng.choice(AUTO + ['id1', 'zz'])))
-        elif r < 0.87: ops.append('(count %s)' % E.H(rng.choice(AUTO + ['id1', 'x'])))
+        elif r < 0.85: ops.append('(count %s)' % E.H(rng.choice(AUTO + ['id1', 'x'])))
+        elif r < 0.87: ops.append('(itemi %s %d)' % (E.H(rng.choice(['id1', 'id2', 'x', 'b4da55', 'zz'])), rng.choice([0, 1, 1, 2, 3, 7])))
         elif r < 0.92: ops.append('(ids)')
         elif r < 0.96: ops.append('(dups)')
         elif r < 0.975: ops.append('(printauto)')
@@ -96,6 +97,7 @@ def gen_scenario(rng, nops):
         out.append(o)
         if o.startswith('(assignidk') or o.startswith('(assignid2k') or o.startswith('(assignid '):
             out += ['(item %s)' % E.H(i) for i in ('id1', 'id2', 'x', 'b4da55', 'b4da56')] + ['(count %s)' % E.H(rng.choice(['id1', 'id2', 'x']))]
+            out += ['(itemi %s %d)' % (E.H(rng.choice(['id1', 'x', 'b4da55'])), k_) for k_ in (0, 1, 2)]
     ops = out
     if rng.random() < 0.5:
         ops.insert(rng.randrange(len(ops) + 1), '(printauto)')
@@ -167,6 +169,10 @@ def oracle(shape_line, ops, results):
                 if new[k] != want or cnt != 1: bad.append('%s returned slot %d which carries %s (count %d)' % (op, k, new[k], cnt))
             elif r == 'none' and cnt == 1: bad.append('%s found nothing although exactly one item carries the identifier' % op)
             elif r == 'unknown-object': bad.append('%s returned an object that is not an item of the model' % op)
+        if head[0] == 'itemi' and has_model:
+            cnt, k = new.count(head[1]), int(head[2])
+            if k < cnt and r != 'some': bad.append('%s: %d items carry the identifier but the lookup answered %s' % (op, cnt, r))
+            if k >= cnt and r != 'none1': bad.append('%s: only %d item(s) carry the identifier; the lookup answered %s (none1 = nothing, explained by an issue)' % (op, cnt, r))
         if head[0] == 'count' and has_model and int(r[1:]) != new.count(head[1]):
             bad.append('%s returned %s, an independent traversal counts %d' % (op, r, new.count(head[1])))
         if head[0] in ('ids', 'dups') and has_model:
